@@ -117,6 +117,8 @@ def pinnedPos : Pos :=
 
 def noBasis : Array W := #[]
 
+/-- the facts about `pinnedPos` (kernel evaluation of `FromSquares`, `analyze`, `GameOver`, `placeWinMove`, `Move`): live,
+White to move at ply 58 with no flat and one capstone in reserve; `placeWinMove` proposes the flat on e1; `Move` refuses it -/
 theorem pinnedPos_facts :
     pinnedPos.gameOver.1 = false ∧ pinnedPos.move = 58 ∧ pinnedPos.whiteStones = 0#8 ∧ pinnedPos.whiteCaps = 1#8 ∧
     placeWinMove (Gen.precompute 5) pinnedPos = .ok ⟨4, 0, Facts.mtPlaceFlat, 0⟩ ∧
@@ -378,6 +380,7 @@ def start5 : Pos := match Pos.new { size := 5, pieces := 0, capstones := 0, blac
   | .ok p => p
   | .error _ => default
 
+/-- the start position of the default 5×5 game satisfies the rollout invariant (21 + 1 pieces a side ≤ 64 in all) -/
 theorem start5_inv (basis : Array W) : PolicyInv basis 5 start5 := by
   have h0 : Pos.new { size := 5, pieces := 0, capstones := 0, blackWinsTies := false } = .ok start5 := rfl
   refine ⟨Tak.new_wf basis h0, ?_, rfl, .inr (.inr ⟨rfl, by decide, by decide⟩)⟩
